@@ -503,3 +503,34 @@ def rule_convention_roles(repo: Repo, chk: Check, rule: str):
                   f"no emission site for the role '{role}' under the {name} convention (guarded by use_push_pop_functions "
                   f"{'true' if conv else 'false'}): with that option the value is never transferred",
                   {"sites": [norm(s.call)[:70] for s in sites]}, str(g.path))
+
+
+# ------------------------------------------------------------------ R04.e / R13.d
+def rule_module_lifetime(repo: Repo, chk: Check, rule: str):
+    t = repo.mod("types")
+    lf = t.func("IC10Register.lifetime")
+    chk.saw("types", "IC10Register.lifetime")
+    cfg, rd = fn_ctx(lf)
+    where = f"{t.path}:{lf.lineno} in IC10Register.lifetime"
+    stores = [st for st in ast.walk(lf) if isinstance(st, ast.Assign) and "maxsize" in norm(st.value) and any(norm(x).endswith("_lifetime") for x in st.targets)]
+    if not stores:
+        chk.bad(rule, "types:IC10Register.lifetime:module-level values live for the whole program",
+                "no unbounded lifetime is assigned any more: a global is released after its last textual use although functions read it later", None, where)
+        return
+    for st in stores:
+        ids = live_ids(cfg, st)
+        atoms = guard_atoms(cfg, ids[0]) if ids else []
+        by_type = any(p and isinstance(tst, ast.Call) and norm(tst.func) == "isinstance" and ".scope()" in norm(tst.args[0]) and norm(tst.args[1]).endswith("Module")
+                      for tst, p in atoms)
+        by_name = [norm(tst) for tst, p in atoms if isinstance(tst, ast.Compare) and any(isinstance(c, ast.Constant) and isinstance(c.value, str) for c in tst.comparators)
+                   and ".name" in norm(tst.left)]
+        in_loop = False
+        p = st
+        while p is not None and p is not lf:
+            if isinstance(p, ast.For) and "nodes_writing" in norm(p.iter):
+                in_loop = True
+            p = getattr(p, "parent", None)
+        chk.judge(rule, "types:IC10Register.lifetime:module-level values live for the whole program", by_type and not by_name and in_loop,
+                  "the unbounded lifetime is assigned " + (f"only for the module whose name satisfies {by_name}" if by_name else "without testing that a writer's scope is a Module")
+                  + ": globals of library modules get line intervals and two of them (or a global and a function local) can share a register",
+                  {"guards": [norm(tst) + ("" if p_ else "=False") for tst, p_ in atoms]}, f"{t.path}:{st.lineno} in IC10Register.lifetime")
